@@ -174,6 +174,7 @@ def merge_vals(conds, vals):
         if all(isinstance(v, ElemLV) and v.path == v0.path for v in vals):
             return ElemLV(merge_vals(conds, [v.vref for v in vals]), merge_vals(conds, [v.idx for v in vals]), v0.ety, v0.path)
     if v0 is None and all(v is None for v in vals): return None
+    if isinstance(v0, (int, str, bool)) and all(v == v0 for v in vals): return v0
     if isinstance(v0, (Opaque, Closure)):
         return v0
     raise Unsupported('cannot merge values of kind %s' % type(v0).__name__)
@@ -197,6 +198,15 @@ def merge_states(states, rets=None, base=None):
             m.env[key] = merge_vals(conds, vals)
         except Unsupported:
             pass   # variable becomes unavailable after the join; using it later raises
+    eps = set(s.ghost.get('epoch', 0) for s in states)
+    if len(eps) > 1:
+        if base is None: raise Unsupported('merge of states with different heap epochs')
+        eng = base.__self__
+        for key in [k for k in eng.base_arrays if '@' not in k]:
+            for s in states:
+                if key not in s.heap: s.heap[key] = base(key, s)
+        newep = next(eng.nfresh) + 1
+        for s in states: s.ghost['epoch'] = newep
     hk = set()
     for s in states: hk |= set(s.heap)
     for key in hk:
@@ -209,7 +219,10 @@ def merge_states(states, rets=None, base=None):
     gk = set(states[0].ghost)
     for s in states[1:]: gk &= set(s.ghost)
     for key in gk:
-        m.ghost[key] = merge_vals(conds, [s.ghost[key] for s in states])
+        try:
+            m.ghost[key] = merge_vals(conds, [s.ghost[key] for s in states])
+        except Unsupported:
+            pass
     r = None
     if rets is not None:
         r = merge_vals(conds, rets)
